@@ -14,7 +14,7 @@ sys.path.insert(0, os.path.join(os.path.dirname(os.path.abspath(__file__)), ".."
 import vlib, gqlgen
 
 SCHEMA = os.path.join(vlib.ROOT, "schemas", "c20.json")
-CODES = {"A": "DevAbstractIgnoresObjectHints", "S": "DevSpreadKeepsOuterType"}
+CODES = {"A": "DevAbstractIgnoresObjectHints"}
 
 
 def gen_docs(c, ts_path, n, dirs, label):
